@@ -36,6 +36,7 @@ def run(ctx):
     ctx.guard(rule_c, ctx, ix)
     ctx.guard(rule_d, ctx, ix)
     ctx.guard(rule_e, ctx, ix)
+    ctx.guard(rule_f, ctx, ix)
 
 
 def family(ix):
@@ -478,3 +479,41 @@ def _member_funcs(mem):
         if f is not None and f not in out:
             out.append(f)
     return out
+
+
+def rule_f(ctx, ix):
+    """The pixel-space shortcut of the region selection reads `att.axis` as an axis of the dataset being evaluated.  That is only
+    meaningful for the dataset's OWN pixel attributes: a pixel attribute of another (linked) dataset has an axis number too."""
+    from ..util import expand_locals, parent_map as _pm, guard_chain
+    R = 'C04.f'
+    ctx.describe(R, 'the pixel-space shortcut is taken only for the evaluated dataset\'s own pixel attributes', floor=1)
+    c = ix.cls('glue.core.subset.RoiSubsetStateNd')
+    f = c.resolve_func('to_mask')
+    if f is None:
+        raise AnalysisError('RoiSubsetStateNd.to_mask vanished')
+    data_p = f.params[1]
+    pm = _pm(f.node)
+    reads = [n for n in ast.walk(f.node) if isinstance(n, ast.Attribute) and n.attr == 'axis' and isinstance(n.ctx, ast.Load)]
+    if not reads:
+        ctx.ob(R, f.construct, 'no pixel-space shortcut is taken (nothing reads an axis number)', True, nontrivial=False)
+        return
+    for r in reads:
+        tests = [expand_locals(f.node, g.test) for g, br in guard_chain(pm, r, f.node) if isinstance(g, ast.If) and br == 'body']
+        own = False
+        other = False
+        for t in tests:
+            for x in ast.walk(t):
+                if isinstance(x, ast.Call) and isinstance(x.func, ast.Name) and x.func.id == 'all' and x.args:
+                    for cmp_ in ast.walk(x.args[0]):
+                        if isinstance(cmp_, ast.Compare) and len(cmp_.ops) == 1 and isinstance(cmp_.ops[0], ast.In) and \
+                                unparse(cmp_.comparators[0]) in ('%s.pixel_component_ids' % data_p, '%s._pixel_component_ids' % data_p):
+                            own = True
+                if isinstance(x, ast.Call) and isinstance(x.func, ast.Name) and x.func.id == 'isinstance' and 'PixelComponentID' in unparse(x):
+                    other = True
+        ctx.idiom(R, '%s `%s`' % (f.construct, norm(r)), 'the axis number is used only when every attribute is one of data.pixel_component_ids',
+                  accepted=own, absent=(not own) and (other or not tests),
+                  detail_absent='RoiSubsetStateNd.to_mask uses `%s` as an axis of the dataset it evaluates on without checking that the '
+                                'attributes are that dataset\'s own pixel attributes (%s): for a region drawn on the pixel axes of another, '
+                                'linked dataset the wrong axes are collapsed and the mask of a view differs from the view of the full mask'
+                                % (norm(r), 'it only tests their type' if other else 'no test'),
+                  shape=' and '.join(unparse(t) for t in tests), where=where(f, r))
